@@ -201,3 +201,70 @@ def core_core(method, ZA, ZB, gamma, R, alphaA, alphaB, first_is_N_or_O_second_i
     for (K, L, M) in list(gaussA) + list(gaussB):
         g = g + K * exp(-L * (R - M) ** 2)
     return e + ZA * ZB / R * g
+
+
+# ----------------------------------------------------------------------------
+# closed-shell NDDO Fock matrix (textbook:  F = h + J - K/2 under zero differential overlap)
+
+
+def one_center_integral(a, b, c, d, gss, gsp, gpp, gp2, hsp):
+    """(ab|cd) on one atom, orbitals 0 = s, 1..3 = p.  hpp = (gpp - gp2)/2."""
+    key = tuple(sorted([tuple(sorted((a, b))), tuple(sorted((c, d)))]))
+    (a, b), (c, d) = key
+    if a == b and c == d:
+        if a == 0 and c == 0:
+            return gss
+        if a == 0 or c == 0:
+            return gsp
+        return gpp if a == c else gp2
+    if (a, b) == (c, d):
+        if a == 0:
+            return hsp  # (s p | s p)
+        return Fraction(1, 2) * (gpp - gp2)  # (p p' | p p')
+    return 0
+
+
+def unpack_two_center(wk):
+    """10x10 packed block -> function (mu, nu, lam, sig) with mu,nu on the first atom, lam,sig on the second."""
+    order = pair_order()
+    index = {}
+    for n, (k, l) in enumerate(order):
+        index[(k, l)] = n
+        index[(l, k)] = n
+    return lambda mu, nu, lam, sig: wk[index[(mu, nu)]][index[(lam, sig)]]
+
+
+def fock_spec(natoms, P, H, pairs, w, onec):
+    """Dense closed-shell Fock matrix of one molecule.
+    P, H: (4n x 4n) symmetric matrices as nested lists; pairs: list of (A, B) with A < B; w[k]: packed 10x10 block of pair k;
+    onec[A] = (gss, gsp, gpp, gp2, hsp).  Returns F as nested list."""
+    n = 4 * natoms
+    F = [[H[i][j] for j in range(n)] for i in range(n)]
+    two = {}
+    for k, (A, B) in enumerate(pairs):
+        two[(A, B)] = unpack_two_center(w[k])
+
+    def eri(m, v, l, s):
+        A, B, C, D = m // 4, v // 4, l // 4, s // 4
+        if A != B or C != D:
+            return 0  # zero differential overlap
+        if A == C:
+            return one_center_integral(m % 4, v % 4, l % 4, s % 4, *onec[A])
+        if (A, C) in two:
+            return two[(A, C)](m % 4, v % 4, l % 4, s % 4)
+        if (C, A) in two:
+            return two[(C, A)](l % 4, s % 4, m % 4, v % 4)
+        return 0
+
+    for m in range(n):
+        for v in range(n):
+            acc = 0
+            for l in range(n):
+                for s in range(n):
+                    j = eri(m, v, l, s)
+                    kx = eri(m, l, v, s)
+                    if _is0(j) and _is0(kx):
+                        continue
+                    acc = acc + P[l][s] * (j - Fraction(1, 2) * kx)
+            F[m][v] = F[m][v] + acc
+    return F
